@@ -644,7 +644,13 @@ fn explore(run: &Run, t: &Tuple) -> Stats {
     let state = match menu::build_state(&t.cfg, &t.plain, &t.user, &t.owner, t.perms) {
         Ok(s) => s,
         Err(e) => {
-            run.fail(None, case_json(t, &[]), &e, "EncryptionState can be built for a legal configuration");
+            // refusing to encrypt with a password that revision <= 4 cannot represent is a legitimate
+            // answer: the property is then vacuous for this tuple
+            if t.cfg.revision() <= 4 && (!pdfdoc_encodable(&t.user) || !pdfdoc_encodable(&t.owner)) {
+                run.add("tuples_refused_unencodable_password", 1);
+            } else {
+                run.fail(None, case_json(t, &[]), &e, "EncryptionState can be built for a legal configuration");
+            }
             return st;
         }
     };
@@ -735,6 +741,10 @@ fn specs(run: &Run) -> (Vec<Spec>, u64) {
                         if r6 && !parity {
                             continue;
                         }
+                        // revision 6, thorough bound: permissions all, none and one single flag in rotation
+                        if r6 && mi >= 2 && mi != 2 + (ci + pi + ki) % 8 {
+                            continue;
+                        }
                         let in_quick = mi == 0 && parity && (!r6 || (ci + pi + ki) % 3 == 0);
                         let take = if run.thorough || in_quick {
                             true
@@ -782,7 +792,7 @@ fn main() {
     run.rule(
         "start tuples = document menu (6 documents hitting every path of encrypt_object/decrypt_object) x handler configurations \
          (V1; V2 x 12 key lengths; V4 x {RC4,AES-128,Identity}^2 x EncryptMetadata x two ways of naming Identity; R5; V5 x {AES-256,Identity}^2) \
-         x 9 password pairs x permission sets {all, none, each single flag} x cross-reference format {table, stream} (revision 6: one format per tuple, alternating), enumerated in a fixed order without repetition; from each tuple a BFS to \
+         x 9 password pairs x permission sets {all, none, each single flag} x cross-reference format {table, stream} (revision 6: one format per tuple, alternating, and permission sets {all, none, one single flag in rotation}), enumerated in a fixed order without repetition; from each tuple a BFS to \
          depth 4 over 6 transitions on the real Document, deduplicated on (abstract state, has-passed-through-save/load); a tuple is non-trivial \
          when an encrypted state was reached; states = distinct (tuple, abstract state) pairs reached; a trace is a path whose last transition \
          satisfied every invariant",
